@@ -3,6 +3,16 @@
    pert = "+" / "-": evaluate the model at v*(1 + 2^-40) / v*(1 - 2^-40) (rounding-tie probe);
    pert = "=num/den": evaluate it at that rational (the comparer checks that it lies in the same interval).
    Output: R <panic site|none|reg num/den|frac w n d num/den> ; D <hex|->
+   Sequence: S <mode> <start> <acc bits> <max_den> <max_whole> [<acc bits> <max_den> <max_whole> ...]
+     mode n = try_approx_seq; q, f = try_fraction (define <the triple, enabled>) on a number, r on a range
+     (f stops at the first call that returns false: the implementation's fit then leaves the unit);
+     start = b<f64 bits> | F<whole>,<num>,<den>,<err bits>, `A&B` for r.
+   One call from a given state: T <mode> <state> <acc bits> <max_den> <max_whole> [pert]
+     state = R<m>:<e> | F<whole>,<num>,<den>,<m>:<e> (exact m*2^e), `A&B` for r; pert = one entry per number,
+     separated by commas: 0, + or - (the value handed to new_approx is multiplied by 1 +- 2^-40), or
+     =num/den (new_approx is given that rational; the comparer checks that it lies as close).
+   Output of both: S <step> | <step> ...   step = <1|0> <number>[ & <number>] | P <site> | X
+     number = reg num/den | frac w n d num/den | reg nan
    env FRAC_CFG=found selects the code as found (cfg0), anything else the repaired test (cfgF). *)
 
 (* IEEE-754 decoding: sign, exponent field of [ebits] bits, fraction of [fbits] bits *)
@@ -30,10 +40,155 @@ let one_minus_eps = q_of_m_e "1099511627775" (-40)   (* 1 - 2^-40 *)
 
 let show_q (x : q) : string = string_of_q (qred x)
 
+(* ---------- sequences ---------- *)
+
+type st = Num of number | Odd of f64      (* Odd: Regular(NaN / inf), which [number] cannot hold *)
+
+let show_num (x : number) : string =
+  match x with
+  | Regular v -> "reg " ^ show_q v
+  | Fraction (w, n, d, e) -> "frac " ^ string_of_n w ^ " " ^ string_of_n n ^ " " ^ string_of_n d ^ " " ^ show_q e
+
+let show_st (x : st) : string = match x with Num n -> show_num n | Odd _ -> "reg nan"
+
+let split_on (c : char) (s : string) : string list = String.split_on_char c s
+
+let q_of_me (t : string) : q =
+  match split_on ':' t with
+  | [m; e] -> q_of_m_e m (int_of_string e)
+  | _ -> failwith "m:e"
+
+let parse_start (t : string) : st =
+  if t.[0] = 'b' then
+    (match f64_of_hex (String.sub t 1 (String.length t - 1)) with Fin q -> Num (Regular q) | o -> Odd o)
+  else if t.[0] = 'F' then
+    (match split_on ',' (String.sub t 1 (String.length t - 1)) with
+     | [w; n; d; e] ->
+         (match f64_of_hex e with
+          | Fin q -> Num (Fraction (n_of_dec w, n_of_dec n, n_of_dec d, q))
+          | _ -> failwith "non-finite err")
+     | _ -> failwith "fraction start")
+  else if t.[0] = 'R' then Num (Regular (q_of_me (String.sub t 1 (String.length t - 1))))
+  else failwith "start token"
+
+let parse_state (t : string) : st =
+  if t.[0] = 'F' && String.contains t ':' then
+    (match split_on ',' (String.sub t 1 (String.length t - 1)) with
+     | [w; n; d; e] -> Num (Fraction (n_of_dec w, n_of_dec n, n_of_dec d, q_of_me e))
+     | _ -> failwith "fraction state")
+  else parse_start t
+
+let perturb (v : f64) (p : string) : f64 =
+  match v with
+  | Fin q ->
+      if p = "+" then Fin (qmult q one_plus_eps)
+      else if p = "-" then Fin (qmult q one_minus_eps)
+      else if String.length p > 1 && p.[0] = '=' then Fin (q_of_frac (String.sub p 1 (String.length p - 1)))
+      else v
+  | _ -> v
+
+(* Number::try_approx with the value handed to new_approx perturbed (tie probe) *)
+let try_pert c (x : st) acc md mw (p : string) : (st * bool) outcome =
+  match x, p with
+  | Num n, "0" ->
+      (match try_approx c n acc md mw with Done (y, ok) -> Done (Num y, ok) | Panic s -> Panic s)
+  | _ ->
+      let v = (match x with Num n -> perturb (value n) p | Odd o -> o) in
+      (match new_approx c v acc md mw with
+       | Done (Some f) -> Done (Num f, true)
+       | Done None -> Done (x, false)
+       | Panic s -> Panic s)
+
+let helper acc md mw : frac_helper =
+  { fh_enabled = Some true; fh_accuracy = Some acc; fh_max_den = Some md; fh_max_whole = Some mw }
+
+(* one call in the given mode; perts: one entry per number *)
+let one_call c (mode : string) (xs : st list) acc md mw (perts : string list) : (st list * bool) outcome =
+  let plain = List.for_all (fun p -> p = "0") perts in
+  match mode, xs with
+  | "n", [x] -> (match try_pert c x acc md mw (List.hd perts) with Done (y, ok) -> Done ([y], ok) | Panic s -> Panic s)
+  | ("q" | "f"), [Num n] when plain ->
+      (match try_fraction c (define (helper acc md mw)) (VNumber n) with
+       | Done (VNumber y, ok) -> Done ([Num y], ok)
+       | Done _ -> failwith "try_fraction changed the kind of value"
+       | Panic s -> Panic s)
+  | "r", [Num a; Num b] when plain ->
+      (match try_fraction c (define (helper acc md mw)) (VRange (a, b)) with
+       | Done (VRange (y, z), ok) -> Done ([Num y; Num z], ok)
+       | Done _ -> failwith "try_fraction changed the kind of value"
+       | Panic s -> Panic s)
+  | ("q" | "f" | "r"), _ ->
+      (* the same with perturbed values (or a start [number] cannot hold): try_fraction spelled out *)
+      let fc = define (helper acc md mw) in
+      if not fc.fc_enabled then Done (xs, false) else
+      let call x p = try_pert c x fc.fc_accuracy fc.fc_max_den fc.fc_max_whole p in
+      (match xs, perts with
+       | [x], [p] -> (match call x p with Done (y, ok) -> Done ([y], ok) | Panic s -> Panic s)
+       | [a; b], [pa; pb] ->
+           (match call a pa with
+            | Panic s -> Panic s
+            | Done (y, true) -> Done ([y; b], true)
+            | Done (y, false) ->
+                (match call b pb with Panic s -> Panic s | Done (z, ok) -> Done ([y; z], ok)))
+       | _ -> failwith "state does not fit the mode")
+  | _ -> failwith "mode"
+
+let show_step (xs : st list) (ok : bool) : string =
+  (if ok then "1 " else "0 ") ^ String.concat " & " (List.map show_st xs)
+
+let rec triples (l : string list) : (string * string * string) list =
+  match l with
+  | a :: b :: c :: r -> (a, b, c) :: triples r
+  | [] -> []
+  | _ -> failwith "parameter triples"
+
+let seq_line c (f : string list) : string =
+  let mode = List.nth f 1 in
+  let start = List.map parse_start (split_on '&' (List.nth f 2)) in
+  let ps = List.map (fun (a, d, w) -> (f32_of_hex a, n_of_dec d, n_of_dec w)) (triples (List.tl (List.tl (List.tl f)))) in
+  (* mode n on a representable number: the model's own fold, when nothing panics *)
+  let whole =
+    (match mode, start with
+     | "n", [Num x] ->
+         (match try_approx_seq c x (List.map (fun (a, d, w) -> ((a, d), w)) ps) with
+          | Done tr -> Some (List.map (fun (y, ok) -> show_step [Num y] ok) tr)
+          | Panic _ -> None)
+     | _ -> None) in
+  let steps =
+    match whole with
+    | Some l -> l
+    | None ->
+        let rec go xs ps =
+          match ps with
+          | [] -> []
+          | (a, d, w) :: r ->
+              (match one_call c mode xs a d w (List.map (fun _ -> "0") xs) with
+               | Panic s -> ["P " ^ string_of_n s]
+               | Done (ys, ok) ->
+                   if mode = "f" && not ok then ["X"]
+                   else show_step ys ok :: go ys r) in
+        go start ps in
+  "S " ^ String.concat " | " steps
+
+let step_line c (f : string list) : string =
+  let mode = List.nth f 1 in
+  let xs = List.map parse_state (split_on '&' (List.nth f 2)) in
+  let acc = f32_of_hex (List.nth f 3) in
+  let md = n_of_dec (List.nth f 4) in
+  let mw = n_of_dec (List.nth f 5) in
+  let perts =
+    if List.length f > 6 then split_on ',' (List.nth f 6)
+    else List.map (fun _ -> "0") xs in
+  match one_call c mode xs acc md mw perts with
+  | Panic s -> "S P " ^ string_of_n s
+  | Done (ys, ok) -> if mode = "f" && not ok then "S X" else "S " ^ show_step ys ok
+
 let () =
   let c = match Sys.getenv_opt "FRAC_CFG" with Some "found" -> cfg0 | _ -> cfgF in
   let fmt0 = fun _ -> [n_of_int 48] in
   drive (fun f ->
+    if List.hd f = "S" then seq_line c f else
+    if List.hd f = "T" then step_line c f else
     let fld i = List.nth f i in
     let v = f64_of_hex (fld 0) in
     let acc = f32_of_hex (fld 1) in
